@@ -49,6 +49,10 @@ fn main() {
             else if got_info != want_info { fail = Some(("thread-info", json!({"index": i, "expected": want_info, "observed": got_info}))); }
             else if want_info != "skipped" && th.thread_name != want_name { fail = Some(("thread-name", json!({"index": i, "expected": want_name, "observed": th.thread_name}))); }
             else if got_ip != want_ip { fail = Some(("context-source", json!({"index": i, "expected_source": src, "expected_ip": want_ip, "observed_ip": got_ip}))); }
+            else if { let want = match exp["caller"][i].as_str().unwrap() { "thread_stack" => Some(RA_THREAD - 1), "other_region" => Some(RA_OTHER - 1), _ => None };
+                      th.frames.get(1).map(|f| f.instruction) != want } {
+                fail = Some(("stack-memory-choice", json!({"index": i, "expected": exp["caller"][i], "observed_caller": th.frames.get(1).map(|f| format!("{:#x}", f.instruction)), "frames": th.frames.len()})));
+            }
             else {
                 let want_unl: BTreeMap<String, BTreeSet<u64>> = exp["unl"][i].as_array().unwrap().iter().map(|u| {
                     let name = u.as_str().unwrap().to_string();
